@@ -4,12 +4,12 @@ import vcheck
 from checks import _schema_common as sc
 
 PID = "C16"
-MODULES = ["BeffVerif.Props.C16", "BeffVerif.Props.C16Order", "BeffVerif.Props.C16Names"]
+MODULES = ["BeffVerif.Props.C16", "BeffVerif.Props.C16Order", "BeffVerif.Props.C16Names", "BeffVerif.Props.C16Refs"]
 AUDIT = "BeffVerif/Audit/C16.lean"
 TAGS = ("c16.",)
 MODE = "schema-ctx"
 HYP = {"NoThrowingCall": "D16c"}
-OPEN = ["export_order_independent is a theorem: the DEFINITIONS (Props/C16Order: any two call histories — order, repetition, exceptions, fuel — agree on the definition of every name both define) and the SET OF NAMES (Props/C16Names: histories over the same set of parsers in which every call returns define exactly the names mentioned by a reachable runtype; no mark is left). Hypothesis Functional / Functional' = a name has one schema source, which only a synthetic variant name can violate (D16b). Not proved: that every `$ref` STRING inside the returned JSON is the reference of a mentioned name (the theorem speaks of mentions, the oracle of the JSON), and the set of names for histories with exceptions (D16c lives there)",
+OPEN = ["export_order_independent is a theorem: the DEFINITIONS (Props/C16Order: any two call histories — order, repetition, exceptions, fuel — agree on the definition of every name both define) and the SET OF NAMES (Props/C16Names: histories over the same set of parsers in which every call returns define exactly the names mentioned by a reachable runtype; no mark is left). Hypothesis Functional / Functional' = a name has one schema source, which only a synthetic variant name can violate (D16b). EVERY $ref RESOLVES (Props/C16Refs: `schema_refs` — every reference position of a returned schema and of every definition stored meanwhile, found by walking the keyword positions of the emitted vocabulary through annotateSchema / removeNullUnionBranch / tryMergeAllOfObjectSchemas / the index-signature shortcuts / the variant loop, holds the reference of a name some reachable runtype mentions; with names_complete: `returned_refs_resolve`, `definition_refs_resolve` — after a history of returning calls every reference position of every returned schema and of every exported definition names a definition of the export). Not proved: the set of names and the resolution of references for histories with exceptions (D16c lives there)",
         "D16b: synthetic variant names are `Discriminated<Key><Value><|hash32|>` — two different unions with colliding 32-bit hashes share names (recorded input); D16c: after a throwing call, definitions completed inside the failed cycle keep $refs to the failed type"]
 RULE = ("random sets of 1–4 parsers sharing named / recursive types, random call sequences with repetition (1–6 calls), four refPathTemplate / container-key settings, "
         "optional namedTypeSchemaOverrides: after EVERY call the returned schema and exportDefinitions() are compared verbatim with the Lean context state machine; oracle on the "
